@@ -30,9 +30,6 @@ var r10Reviewed = map[string]string{
 	"internal/encode.EncodeMessageTable/narrow-int-to-uint32#1":    "dataSize is end-start of the writer's message entry (>= 0, R12.7 I2), checked against MaxSize above",
 	"internal/encode.EncodeMessageTable/narrow-int-to-uint32#2":    "tableSize is the size returned by encodeMessageTable = len(table)*entry size >= 0, bounded by MaxSize there",
 	"internal/encode.EncodeStruct/narrow-int-to-uint32#1":          "dataSize is the sum of the sizes reported by the field encoders (each >= 0, R10.3), checked against MaxSize above",
-	"internal/encode.encodeListTable/narrow-uint32-to-uint16#1":    "small table form: chosen by format.IsBigList == false, i.e. every offset <= 65535 (R08.2)",
-	"internal/encode.encodeMessageTable/narrow-uint16-to-byte#1":   "small table form: chosen by format.IsBigMessage == false, i.e. every tag <= 255 (R08.2)",
-	"internal/encode.encodeMessageTable/narrow-uint32-to-uint16#2": "small table form: chosen by format.IsBigMessage == false, i.e. every offset <= 65535 (R08.2)",
 }
 
 func runR10_1(c *Ctx, outer *R) {
@@ -89,6 +86,8 @@ func runR10_1(c *Ctx, outer *R) {
 						rFull.OK(key2, cv.Pos(), "both extreme values of %s pass the guards", cv.Type())
 					}
 				}
+			} else if why, ok := smallFormNarrowing(c, cv); ok {
+				r.OK(key, cv.Pos(), "%s", why)
 			} else if why := r10Reviewed[key]; why != "" {
 				r.OK(key, cv.Pos(), "reviewed: %s", why)
 			} else {
